@@ -24,6 +24,7 @@ import (
 	"time"
 
 	"github.com/pingcap/check"
+	pdclient "github.com/tikv/pd/client"
 	"github.com/tikv/pd/pkg/tsoutil"
 	"github.com/tikv/pd/server"
 	"github.com/tikv/pd/server/config"
@@ -173,6 +174,7 @@ func (w *sworld) exec(f []string) string {
 // part C: the protocol on an in-process server
 
 type pworld struct {
+	cli    pdclient.Client // the real pd client (batching, stream, fallback detector) against this server
 	svr    *server.Server
 	cancel context.CancelFunc
 	dcs    []string
@@ -303,6 +305,37 @@ func (w *pworld) request(alloc int, count uint32) grant {
 	return g
 }
 
+// clientRequest asks through the real pd client (gRPC Tso stream, request batching, the client's own
+// distribution of a batch); the suffix width is the server's current one.
+func (w *pworld) clientRequest(alloc int) grant {
+	g := grant{alloc: alloc}
+	if w.cli == nil {
+		c, err := pdclient.NewClientWithContext(context.Background(), []string{w.svr.GetAddr()}, pdclient.SecurityOption{})
+		if err != nil {
+			g.err = "client:" + strings.ReplaceAll(err.Error(), " ", "_")
+			return g
+		}
+		w.cli = c
+	}
+	ctx, cancel := context.WithTimeout(context.Background(), 10*time.Second)
+	defer cancel()
+	g.start = atomic.AddInt64(&w.ticks, 1)
+	var p, l int64
+	var err error
+	if alloc == 0 {
+		p, l, err = w.cli.GetTS(ctx)
+	} else {
+		p, l, err = w.cli.GetLocalTS(ctx, dcName(strconv.Itoa(alloc)))
+	}
+	g.finish = atomic.AddInt64(&w.ticks, 1)
+	if err != nil {
+		g.err = strings.ReplaceAll(err.Error(), " ", "_")
+		return g
+	}
+	g.ms, g.logical, g.bits = p, l, uint32(w.svr.GetTSOAllocatorManager().GetSuffixBits())
+	return g
+}
+
 func (g grant) String() string {
 	if g.err != "" {
 		return fmt.Sprintf("%d:err", g.alloc)
@@ -377,17 +410,29 @@ func (w *pworld) exec(f []string) string {
 			return "rejected"
 		}
 		return "ok"
-	case f[0] == "burst" && len(f) == 5: // #global, #local per dc, count, seed (ignored)
+	case f[0] == "burst" && (len(f) == 5 || len(f) == 6): // #global, #local per dc, count, seed (ignored) [, "cli"]
 		ng, nl, c := int(atoi(f[1])), int(atoi(f[2])), uint32(atoi(f[3]))
+		viaClient := len(f) == 6 && f[5] == "cli" // count is 1 per call; the client batches concurrent calls itself
 		var mu sync.Mutex
 		var res []grant
 		var wg sync.WaitGroup
 		run := func(alloc int) {
 			defer wg.Done()
-			g := w.request(alloc, c)
-			mu.Lock()
-			res = append(res, g)
-			mu.Unlock()
+			reps := 1
+			if viaClient {
+				reps = 4
+			}
+			for k := 0; k < reps; k++ {
+				var g grant
+				if viaClient {
+					g = w.clientRequest(alloc)
+				} else {
+					g = w.request(alloc, c)
+				}
+				mu.Lock()
+				res = append(res, g)
+				mu.Unlock()
+			}
 		}
 		for i := 0; i < ng; i++ {
 			wg.Add(1)
@@ -483,6 +528,9 @@ func main() {
 	defer func() {
 		sw.reset()
 		if pw != nil {
+			if pw.cli != nil {
+				pw.cli.Close()
+			}
 			pw.cancel()
 			pw.svr.Close()
 		}
